@@ -36,7 +36,7 @@ package metricstorage
 //@   prop C16
 //@   requires group != ""
 //@   requires forall(j, 0, len(ops), operation.Valid(ops[j]) && operation.Normalized(ops[j]) && ops[j].Group == group)
-//@   modifies vault.nExpire, vault.nApply, vault.lastKind, vault.lastGroup, vault.lastName, vault.lastValue
+//@   modifies vault.nExpire, vault.nApply, vault.lastKind, vault.lastGroup, vault.lastName, vault.lastValue, vault.applyLabels
 //@   ensures [expire-first] vault.nExpire == old(vault.nExpire) + 1 + nExp(ops, len(ops))
 //@   ensures [once-each]    vault.nApply == old(vault.nApply) + len(ops) - nExp(ops, len(ops))
 //@   loop 1
@@ -45,6 +45,7 @@ package metricstorage
 //@     invariant [once-each] vault.nApply == old(vault.nApply) + iter() - nExp(ops, iter())
 //@     invariant [args] iter() > 0 && ops[iter()-1].Action != "expire" ==> vault.lastGroup == group && vault.lastName == ops[iter()-1].Name
 //@        && vault.lastValue == *ops[iter()-1].Value && vault.lastKind == ops[iter()-1].Action
+//@        && utils.mergedFirst(vault.applyLabels[vault.nApply - 1]) == ops[iter()-1].Labels && utils.mergedSecond(vault.applyLabels[vault.nApply - 1]) == commonLabels
 
 // C16: a validated ungrouped batch cannot fail half-way (grouped metrics are already applied by then).
 //@ func (*MetricStorage).sendBatchV0
